@@ -47,6 +47,10 @@ PROPS = {
     "C05": ring(quick=320, thorough=8000),
     "C06": ring(quick=320, thorough=8000),
     "C09": ring(quick=320, thorough=8000),
+    "C07": ring(level="fault_enumeration", quick=192, thorough=2400),
+    "C08": ring(quick=240, thorough=6000),
+    "C10": ring(quick=240, thorough=6000),
+    "C14": ring(quick=240, thorough=6000),
 }
 
 RULES = {
@@ -315,6 +319,12 @@ def report(prop, tier, engine, seed, recs, crashed, binp, tmp, t0, build_s, plan
                 knownhits.setdefault(ent["class"], (ent, r["seed"]))
             else:
                 viols.append((r, v))
+    cells, cells_fired = set(), set()
+    for r in recs:
+        ex = r.get("extra") or {}
+        if "cell" in ex:
+            cells.add(ex["cell"])
+            if ex.get("cell_fault_fired"): cells_fired.add(ex["cell"])
     wall = time.time() - t0
     samples = []
     for r in recs:
@@ -359,6 +369,12 @@ def report(prop, tier, engine, seed, recs, crashed, binp, tmp, t0, build_s, plan
         "wall_s": round(wall, 1),
         "violations": len(viols),
     }
+    if cells:
+        ev["coverage"]["fault_cells_enumerated"] = len(cells)
+        ev["coverage"]["fault_cells_where_the_fault_fired"] = len(cells_fired)
+        ev["coverage"]["fault_cells_never_reached"] = sorted(cells - cells_fired)
+        ev["coverage"]["exhaustive"] = False
+        ev["coverage"]["explanation"] = "every (scenario x RPC x fault mode x occurrence) cell is run under several seeded schedules; cells whose RPC occurrence does not exist in the scenario (e.g. a 2nd Import) are listed as never reached"
     os.makedirs(os.path.join(VERIF, "evidence"), exist_ok=True)
     for ent, s in knownhits.values():
         print("KNOWN-FINDING: property=%s %s (class %s, e.g. seed %d)" % (prop, ent.get("what", ""), ent["class"], s))
